@@ -101,6 +101,10 @@ type c13Case struct {
 	K     int    `json:"k,omitempty"`
 }
 
+// register writes that must leave the line/mode schedule alone (LCDC values get bit 7 forced on)
+var c13Writes = [][2]uint16{{0xff44, 0x00}, {0xff44, 0x5a}, {0xff44, 0x90}, {0xff41, 0x00}, {0xff41, 0x78}, {0xff41, 0xff}, {0xff45, 0x00}, {0xff45, 0x05},
+	{0xff40, 0x00}, {0xff40, 0x7f}, {0xff40, 0x11}, {0xff42, 0xff}, {0xff43, 0xff}, {0xff4a, 0x00}, {0xff4b, 0x07}, {0xff47, 0x00}, {0xff48, 0x00}, {0xff0f, 0x00}, {0xff46, 0xc0}}
+
 func c13Fresh() (*machine.M, *lineMon) {
 	m := machine.New(machine.ROMOnly(), machine.Opts{})
 	// power-on state: LCD already on at position 0 of its first frame
@@ -124,6 +128,37 @@ func c13Check(l *explore.Local, _ struct{}, c c13Case) *explore.Fail {
 		return nil
 	}
 	for p := 0; p < c.To; p++ {
+		if c.Kind == "write" && p >= c.From && (c.Pos == 0 || p == c.Pos) {
+			// a register write lands after p cycles: the line/mode schedule must not notice
+			for wi, w := range c13Writes {
+				if c.Pos > 0 && wi != c.K {
+					continue
+				}
+				sp, so, si, st := *m.P, *m.OAM, *m.I, *m.T
+				slm := *lm
+				fail := func(f *explore.Fail) *explore.Fail {
+					f.Case = c13Case{Kind: "write", From: p, To: p + 1, Pos: p, K: wi, After: c.After}
+					f.Msg += fmt.Sprintf(" [%04x<-%02x written %d cycles after power-on]", w[0], w[1], p)
+					return f
+				}
+				v := uint8(w[1])
+				if w[0] == 0xff40 {
+					v |= 0x80 // the LCD stays on
+				}
+				// LY and STAT are observed after each machine cycle (as the statement says), not between the
+				// write and the end of its cycle: a guest cannot read in the same cycle it writes
+				m.Map.Write(w[0], v)
+				lm2 := *lm
+				for i := 0; i < c.After; i++ {
+					if f := tick(&lm2, "after a register write"); f != nil {
+						return fail(f)
+					}
+				}
+				*m.P, *m.OAM, *m.I, *m.T = sp, so, si, st
+				*lm = slm
+				l.Eval(1)
+			}
+		}
 		if c.Kind == "offon" && p >= c.From {
 			ks := c.OffK
 			if c.Pos > 0 || c.K > 0 {
@@ -340,7 +375,7 @@ func c14Run(l *explore.Local, m *machine.M, lm *lineMon, c c14Case, t0 int) *exp
 func init() {
 	register("C13", "model_checking", func(c *Ctx) {
 		if c.R != nil {
-			c.R.Rule = "LY and the STAT mode are read through the Mapper after every machine cycle of the real PPU and fed to a reference line monitor (LY 0..153 cyclic, 114 cycles per line, mode 2 for the first 20 cycles, 3 until 61, then 0; mode 1 on lines 144-153; first line after switching on 2 cycles shorter): 3 free-running frames, and from EVERY cycle position of the first and of a steady frame: LCDC off -> LY=0/mode 0 at once and for as long as it is off (0, 1, 5, 200 cycles) -> LCDC on -> line 0 mode 2 -> monitored for a further 260 cycles (thorough: a full frame); the PPU state is restored from a snapshot after each excursion"
+			c.R.Rule = "LY and the STAT mode are read through the Mapper after every machine cycle of the real PPU and fed to a reference line monitor (LY 0..153 cyclic, 114 cycles per line, mode 2 for the first 20 cycles, 3 until 61, then 0; mode 1 on lines 144-153; first line after switching on 2 cycles shorter): 3 free-running frames, and from EVERY cycle position of the first and of a steady frame: LCDC off -> LY=0/mode 0 at once and for as long as it is off (0, 1, 5, 200 cycles) -> LCDC on -> line 0 mode 2 -> monitored for a further 260 cycles (thorough: a full frame); the PPU state is restored from a snapshot after each excursion; and at every enumerated position one write to each video register (LY, STAT, LYC, LCDC keeping bit 7, scroll, window, palettes), IF and DMA: the schedule observed after every following cycle must continue undisturbed"
 			c.R.Assumptions = []string{"which cycle of a line LY changes on is an implementation convention: the first line after switching on is accepted with 112 or 113 observed cycles and its mode boundaries one cycle later, every other line must be exactly 114 with boundaries at 20 and 61"}
 		}
 		after := 260
@@ -361,6 +396,31 @@ func init() {
 						to = 2 * 17556
 					}
 					if !yield(c13Case{Kind: "offon", From: from, To: to, OffK: []int{0, 1, 5, 200}, After: after}) {
+						return
+					}
+				}
+			}, func() struct{} { return struct{}{} }, c13Check)
+		explore.Product(c.R, "register-writes-at-every-position", explore.PartOpt{Bound: fmt.Sprintf("one write, then %d monitored cycles", 260), Domain: fmt.Sprintf("%d writes (LY x 3 values, STAT x 3, LYC, LCDC with bit 7 kept x 3, SCY, SCX, WY, WX, BGP, OBP0, IF, DMA) at every cycle position of lines 0, 1, 77, 143, 144, 153 of the steady frame and 0, 1 of the first (thorough: every position of both frames)", len(c13Writes))},
+			func(yield func(c13Case) bool) {
+				var lines []int
+				for _, ln := range []int{0, 1, 154, 155, 154 + 77, 154 + 143, 154 + 144, 154 + 153} {
+					lines = append(lines, ln)
+				}
+				if c.Thorough() {
+					lines = nil
+					for ln := 0; ln < 308; ln++ {
+						lines = append(lines, ln)
+					}
+				}
+				for _, ln := range lines {
+					from := ln * 114
+					if ln >= 1 {
+						from -= 2 // the first line after power-on is two cycles shorter
+					}
+					if from < 1 {
+						from = 1
+					}
+					if !yield(c13Case{Kind: "write", From: from, To: from + 114, After: 260}) {
 						return
 					}
 				}
